@@ -37,6 +37,7 @@ inductive Call where
   | edelta (l b size : Nat)
   | comment (t : String)
   | section (s : Nat)
+  | cpoolnode (l align : Nat) (bytes : String)     -- embed_const_pool(label, pool) as issued for a ConstPoolNode
   deriving DecidableEq, Repr, Inhabited
 
 /-- node payloads (`InstNode`, `LabelNode`, `AlignNode`, `EmbedDataNode`, `EmbedLabelNode`, `EmbedLabelDeltaNode`,
@@ -50,7 +51,12 @@ inductive Node where
   | edelta (l b size : Nat)
   | comment (t : String)
   | section (s : Nat)
+  | cpool (l isz : Nat) (items : List String)      -- ConstPoolNode (a LabelNode with a ConstPool): label, item size, distinct items
   deriving DecidableEq, Repr, Inhabited
+
+def Node.isCpool : Node → Bool
+  | .cpool _ _ _ => true
+  | _ => false
 
 def Node.isSection : Node → Bool
   | .section _ => true
@@ -101,6 +107,7 @@ def Node.toCall : Node → Call
   | .edelta l b s => .edelta l b s
   | .comment t => .comment t
   | .section s => .section s
+  | .cpool l isz items => .cpoolnode l isz (String.join items)
 
 /-! ## The node list -/
 
@@ -243,6 +250,7 @@ inductive Op where
   | bind (l : Nat) | align (mode n : Nat) | embed (bytes : String) | data (ty items rep : Nat) (bytes : String)
   | elabel (l size : Nat) | edelta (l b size : Nat) | comment (t : String) | section (s : Nat)
   | cpool (l isz : Nat) (bytes : String)
+  | gconst (isz : Nat) (item : String)     -- BaseCompiler::_new_const(ConstPoolScope::kGlobal, …)
   | cursor (n : Option Nat) | remove (n : Nat) | removerange (a b : Nat)
   | addnode (n : Nat) | addafter (n r : Nat) | addbefore (n r : Nat)
   deriving DecidableEq, Repr
@@ -256,6 +264,8 @@ structure Front where
   opts : Nat := 0                             -- _inst_options
   extra : String := "-"                       -- _extra_reg
   cmt : String := "-"                         -- _inline_comment
+  isCompiler : Bool := false                  -- emitter is a BaseCompiler
+  gpool : Option Nat := none                  -- BaseCompiler::_const_pools[kGlobal]: the pending global ConstPoolNode
   deriving Repr
 
 /-- `TypeUtils::deabstract` + `is_valid` + `size_of` on the ids the generator uses (32..43); `none` = invalid type.
@@ -307,7 +317,9 @@ def front (f : Front) (active : Nat → Bool) : Op → Front × Res × List Act
       -- label_node_of + add_node            (fixes/C08-1: an already linked LabelNode is refused)
       if !f.labelValid l then (f, .err "InvalidLabel", []) else
       match f.labelNodes.getD l none with
-      | some n => if active n then (f, .err "LabelAlreadyBound", []) else (f, .ok, [.add n])
+      | some n =>
+        if (f.nodes.getD n (.comment "?")).isCpool then (f, .pre, []) else   -- a ConstPoolNode is linked by GlobalConstPoolPass, not by bind
+        if active n then (f, .err "LabelAlreadyBound", []) else (f, .ok, [.add n])
       | none => let (f', n) := f.newNode (.label l)
                 ({ f' with labelNodes := f'.labelNodes.set l (some n) }, .ok, [.add n])
   | .align m a => let (f, n) := f.newNode (.align m a); (f, .ok, [.add n])
@@ -347,15 +359,32 @@ def front (f : Front) (active : Nat → Bool) : Op → Front × Res × List Act
           let (f, nd) := f.newNode (.data 35 (hexLen bytes) 1 bytes)
           (f, .ok, [.add na, .add n, .add nd])
       | none => (f, .pre, [])
+  | .gconst isz item =>
+      -- BaseCompiler::_new_const(kGlobal): the first constant creates the ConstPoolNode (new_const_pool_node: a new label registered to
+      -- the node, nothing linked); ConstPool::add appends a new item / finds an equal one (items of one size only - ConstPool layout is C19)
+      if !f.isCompiler || !cpoolPre isz item || hexLen item != isz then (f, .pre, []) else
+      match f.gpool with
+      | none =>
+        let (f', n) := f.newNode (.cpool f.labelNodes.length isz [item])
+        ({ f' with labelNodes := f'.labelNodes ++ [some n], gpool := some n }, .ok, [])
+      | some n =>
+        match f.nodes.getD n (.comment "?") with
+        | .cpool l z items =>
+          if z != isz then (f, .pre, []) else
+          if items.contains item then (f, .ok, []) else
+          ({ f with nodes := f.nodes.set n (.cpool l z (items ++ [item])) }, .ok, [])
+        | _ => (f, .pre, [])
   | .cursor none => (f, .ok, [.setCursor none])
   | .cursor (some n) => if n < f.nodes.length && active n then (f, .ok, [.setCursor (some n)]) else (f, .pre, [])
   | .remove n => if n < f.nodes.length then (f, .ok, [.remove n]) else (f, .pre, [])
   | .removerange a b => if a < f.nodes.length && b < f.nodes.length then (f, .ok, [.removeRange a b]) else (f, .pre, [])
-  | .addnode n => if n < f.nodes.length && !active n then (f, .ok, [.add n]) else (f, .pre, [])
+  | .addnode n => if n < f.nodes.length && !active n && f.gpool != some n then (f, .ok, [.add n]) else (f, .pre, [])
   | .addafter n r =>
-      if n < f.nodes.length && r < f.nodes.length && !active n && active r then (f, .ok, [.addAfter n r]) else (f, .pre, [])
+      if n < f.nodes.length && r < f.nodes.length && !active n && active r && f.gpool != some n then (f, .ok, [.addAfter n r])
+      else (f, .pre, [])
   | .addbefore n r =>
-      if n < f.nodes.length && r < f.nodes.length && !active n && active r then (f, .ok, [.addBefore n r]) else (f, .pre, [])
+      if n < f.nodes.length && r < f.nodes.length && !active n && active r && f.gpool != some n then (f, .ok, [.addBefore n r])
+      else (f, .pre, [])
 
 /-! ## Builder state -/
 
@@ -365,8 +394,8 @@ structure St where
   deriving Repr
 
 /-- `BaseBuilder::on_attach` → `BaseBuilder_init_section`: node 0 is the SectionNode of `.text`, linked, cursor on it -/
-def St.init (regSize : Nat) : St :=
-  { f := { regSize := regSize, nodes := [.section 0], sectionNodes := [(0, 0)] },
+def St.init (regSize : Nat) (isCompiler : Bool := false) : St :=
+  { f := { regSize := regSize, nodes := [.section 0], sectionNodes := [(0, 0)], isCompiler := isCompiler },
     l := { list := [0], cursor := some 0, secNodes := [0] } }
 
 /-- `remove_nodes` has a precondition the front end cannot see without the list: report `pre` when it is violated -/
@@ -385,6 +414,17 @@ def nodeAt (f : Front) (n : Nat) : Node := f.nodes.getD n (.comment "?")
 
 /-- the calls `BaseBuilder::serialize_to` issues to an emitter that accepts everything (fixes/C08-3: none for an empty list) -/
 def serialize (s : St) : List Call := s.l.list.map fun n => (nodeAt s.f n).toCall
+
+/-- `BaseBuilder::run_passes` as far as the node list is concerned: a Compiler's `GlobalConstPoolPass` links the pending global constant
+    pool BEHIND THE LAST NODE (`add_after(pool, last_node())`) - wherever the cursor is - and forgets it; the register allocator has
+    nothing to do without function nodes; a Builder has no passes. (An empty node list is outside the modelled domain.) -/
+def runPasses (s : St) : St :=
+  match s.f.gpool, s.l.list.getLast? with
+  | some n, some r => { f := { s.f with gpool := none }, l := s.l.apply (.addAfter n r) }
+  | _, _ => s
+
+/-- the calls `finalize()` issues: passes, then `serialize_to` -/
+def finalizeCalls (s : St) : List Call := serialize (runPasses s)
 
 /-- `serialize_to(dst)` against an arbitrary destination: stops at the first node `dst` rejects.
     `dst` is a state machine `σ → Call → σ × Option error`. Returns the final destination state and the error. -/
